@@ -622,7 +622,16 @@ func libLenFact(info *types.Info, ff *core.FuncFacts, base ast.Expr, need int) s
 					if !ok {
 						continue
 					}
-					if mc, ok := ast.Unparen(sel.X).(*ast.CallExpr); ok && len(mc.Args) == 1 {
+					recvExpr := ast.Unparen(sel.X)
+					// a package-level `var re = regexp.MustCompile("...")` that is never reassigned
+					if gid, ok := recvExpr.(*ast.Ident); ok {
+						if gv, ok := info.ObjectOf(gid).(*types.Var); ok {
+							if init := ff.P.GlobalInit(gv); init != nil {
+								recvExpr = ast.Unparen(init)
+							}
+						}
+					}
+					if mc, ok := recvExpr.(*ast.CallExpr); ok && len(mc.Args) == 1 {
 						if pat, ok := core.ConstStr(info, mc.Args[0]); ok {
 							if re, err := syntax.Parse(pat, syntax.Perl); err == nil && re.MaxCap()+1 >= need {
 								okA = true
